@@ -21,11 +21,11 @@ const (
 )
 
 type xnode struct {
-	kind xkind
-	op   string
-	l, r *xnode
-	src  string      // source text of an operand
-	val  interface{} // value of an operand
+	kind  xkind
+	op    string
+	l, r  *xnode
+	src   string      // source text of an operand
+	val   interface{} // value of an operand
 	isVar bool
 }
 
@@ -38,14 +38,14 @@ const (
 )
 
 type rres struct {
-	k      rkind
-	v      interface{}
-	etype  string // "Operand is not a number" | "Operand is not a boolean"
+	k       rkind
+	v       interface{}
+	etype   string // "Operand is not a number" | "Operand is not a boolean"
 	operand string // source text of the offending operand if it is a leaf
-	why    string
+	why     string
 }
 
-func rv(v interface{}) rres { return rres{k: rVal, v: v} }
+func rv(v interface{}) rres   { return rres{k: rVal, v: v} }
 func runspec(why string) rres { return rres{k: rUnspec, why: why} }
 
 const (
